@@ -168,7 +168,29 @@ def c_augassign(ctx, args):
     return None
 
 
-CHECKS = {'augassign': c_augassign, 'op_history': c_op_history, 'forms': c_forms, 'pmul_corr': c_pmul_corr, 'pmul_dense': c_pmul_dense, 'chain_corr': c_chain_corr, 'chain_dense': c_chain_dense,
+def c_mono_inverse(ctx, args):
+    """the inverse of a monomial c i^p sigma is the operator that multiplies it to the identity, on both sides -- every string, all four phases (i sigma squares to MINUS one), any coefficient"""
+    a, c = args
+    n = len(a[0]) // 2
+    M = NP.P(a).as_monomial().set_c(complex(*c))
+    try:
+        inv = M.inverse()
+        left, right = (inv @ M), (M @ inv)
+    except Exception as e:
+        return {'kind': 'oracle', 'where': 'np:PauliMonomial.inverse raised %s' % type(e).__name__, 'observed': str(e)[:100], 'expected': 'the inverse', 'tags': ['mono_inverse']}
+    for nm, r in (('inverse @ M', left), ('M @ inverse', right)):
+        r = r.as_polynomial() if hasattr(r, 'as_polynomial') else r
+        tot = {}
+        for g, p, cc in zip(r.gs, r.ps, r.cs):
+            k = tuple(int(v) for v in g)
+            tot[k] = tot.get(k, 0) + complex(cc) * 1j ** int(p)
+        ident = tuple([0] * (2 * n))
+        if abs(tot.get(ident, 0) - 1) > 1e-12 or any(abs(v) > 1e-12 for k, v in tot.items() if k != ident):
+            return {'kind': 'oracle', 'where': 'np:%s is not the identity' % nm, 'observed': sorted((list(k), [v.real, v.imag]) for k, v in tot.items()), 'expected': 'identity', 'tags': ['mono_inverse']}
+    return None
+
+
+CHECKS = {'mono_inverse': c_mono_inverse, 'augassign': c_augassign, 'op_history': c_op_history, 'forms': c_forms, 'pmul_corr': c_pmul_corr, 'pmul_dense': c_pmul_dense, 'chain_corr': c_chain_corr, 'chain_dense': c_chain_dense,
           'batch_corr': c_batch_corr, 'batch_dense': c_batch_dense, 'square': c_square}
 
 
@@ -261,3 +283,5 @@ def run(ctx):
     for it in range(int(120 * B)):
         n = rng.randint(1, 4)
         do(ctx, 'augassign', [gen.rpauli(rng, n), gen.rpauli(rng, n), rng.choice(['pauli', 'mono', 'poly']), rng.choice(['pauli', 'mono', 'poly']), rng.choice(['matmul', 'matmul', 'add', 'sub', 'mul', 'div'])], nontrivial=('iar', it))
+    for a in gen.all_paulis(1) + gen.all_paulis(2):
+        do(ctx, 'mono_inverse', [a, rng.choice([[1, 0], [-1, 0], [2, 0], [0.5, -0.5], [0, 1], [3, -4]])], nontrivial=('mi', str(a)))
